@@ -235,7 +235,7 @@ func execVec5(c *v5Case) []string {
 		}
 		return strings.Join(parts, " ")
 	}
-	search := func(kind string, cmd v5Cmd, thr float32, queries [][]float32, nodes []uint32, agg string) ([]comet.VectorResult, error) {
+	build := func(kind string, cmd v5Cmd, thr float32, queries [][]float32, nodes []uint32, agg string) comet.VectorSearch {
 		s := idx[kind].NewSearch().WithK(cmd.K).WithThreshold(thr)
 		if len(queries) > 0 {
 			qs := make([][]float32, len(queries))
@@ -259,7 +259,10 @@ func execVec5(c *v5Case) []string {
 		if agg != "" {
 			s = s.WithScoreAggregation(comet.ScoreAggregationKind(agg))
 		}
-		return s.Execute()
+		return s
+	}
+	search := func(kind string, cmd v5Cmd, thr float32, queries [][]float32, nodes []uint32, agg string) ([]comet.VectorResult, error) {
+		return build(kind, cmd, thr, queries, nodes, agg).Execute()
 	}
 	outTok := func(res []comet.VectorResult, err error) string {
 		if err != nil {
@@ -282,6 +285,35 @@ func execVec5(c *v5Case) []string {
 		}
 		return thr
 	}
+	// search objects that were built with WithNode(id) and executed once are kept and executed
+	// AGAIN after the next Remove / re-Add of that id: a search object must not remember what
+	// an earlier Execute resolved (the vector of a node id, its liveness)
+	type staleNode struct {
+		s   map[string]comet.VectorSearch
+		cmd v5Cmd
+	}
+	stale := map[uint32]*staleNode{}
+	nodeVTok := func(kind string, cmd v5Cmd, id uint32) string {
+		vtok := "ok"
+		if rv, ok := raw[id]; ok {
+			stored, perr := dist.Preprocess(zeroSafe(rv))
+			if perr == nil {
+				vres, verr := search(kind, cmd, 0, [][]float32{stored}, nil, "")
+				vtok = outTok(vres, verr)
+			}
+		}
+		return vtok
+	}
+	replayStale := func(id uint32) {
+		st := stale[id]
+		if st == nil {
+			return
+		}
+		for _, kind := range v5Kinds {
+			nres, nerr := st.s[kind].Execute()
+			lines = append(lines, fmt.Sprintf("op node %s %d %s %s %d ; %s ; %s => ok", kind, st.cmd.K, core.Hex32(0), core.IDs(st.cmd.Filter), id, outTok(nres, nerr), nodeVTok(kind, st.cmd, id)))
+		}
+	}
 	for _, cmd := range c.Cmds {
 		switch cmd.Op {
 		case "add":
@@ -299,9 +331,11 @@ func execVec5(c *v5Case) []string {
 				raw[cmd.ID] = v
 			}
 			lines = append(lines, fmt.Sprintf("op add %d %s => %s", cmd.ID, core.VecHex(v), out))
+			replayStale(cmd.ID)
 		case "remove":
 			out := outcomes(func(kind string) error { return idx[kind].Remove(*comet.NewVectorNodeWithID(cmd.ID, nil)) })
 			lines = append(lines, fmt.Sprintf("op remove %d => %s", cmd.ID, out))
+			replayStale(cmd.ID)
 		case "flush":
 			out := outcomes(func(kind string) error { return idx[kind].Flush() })
 			lines = append(lines, "op flush => "+out)
@@ -324,6 +358,16 @@ func execVec5(c *v5Case) []string {
 					}
 				}
 				lines = append(lines, fmt.Sprintf("op node %s %d %s %s %d ; %s ; %s => ok", kind, cmd.K, core.Hex32(0), core.IDs(cmd.Filter), cmd.ID, outTok(nres, nerr), vtok))
+			}
+			if stale[cmd.ID] == nil {
+				st := &staleNode{s: map[string]comet.VectorSearch{}, cmd: cmd}
+				for _, kind := range v5Kinds {
+					st.s[kind] = build(kind, cmd, 0, nil, []uint32{cmd.ID}, "")
+					_, _ = st.s[kind].Execute()
+				}
+				stale[cmd.ID] = st
+			} else {
+				replayStale(cmd.ID)
 			}
 		case "mnode":
 			var extra [][]float32
